@@ -21,6 +21,8 @@ type Profile struct {
 	runLeft     map[string]int
 	runNull     map[string]bool
 	hint        leafHint // what the tags of the struct field being filled say about its leaf values
+	geoLayouts  []int    // coordinate layouts of the WKB values of this row set (wkb.go), drawn once
+	geoInvalid  bool     // some values of the row set are not WKB
 }
 
 // leafHint carries the tag-derived constraints of the leaf below the struct field being filled:
@@ -32,6 +34,7 @@ type leafHint struct {
 	uuidText bool          // string holding the text form of a UUID
 	jsonText bool          // string / []byte holding a JSON document
 	timeOfDay bool         // int32/int64 with the time tag: within a day
+	wkb       bool         // []byte holding a well-known-binary geometry (GEOMETRY / GEOGRAPHY columns)
 }
 
 func hintOfTag(tag string, t reflect.Type) (h leafHint) {
@@ -65,6 +68,8 @@ func hintOfTag(tag string, t reflect.Type) (h leafHint) {
 			h.uuidText = t.Kind() == reflect.String
 		case "json":
 			h.jsonText = true
+		case "geometry", "geography":
+			h.wkb = true
 		}
 	}
 	return h
@@ -204,6 +209,9 @@ func Fill(r *rand.Rand, v reflect.Value, p *Profile, path string, isOptional boo
 			}
 			if p.hint.jsonText {
 				b = []byte(jsonPool[r.Intn(len(jsonPool))])
+			}
+			if p.hint.wkb {
+				b = randWKB(r, p)
 			}
 			v.SetBytes(b)
 			return
